@@ -107,13 +107,18 @@ class Engine(EngineBase):
                 continue
             k = rng.choice(["set", "set", "set", "setattr", "del", "update", "setdefault", "pop", "clear",
                             "reset", "nested_set", "nested_set", "list_op", "list_op", "read", "read",
-                            "bad_key", "bad_val", "whole_assign"])
+                            "bad_key", "bad_val", "whole_assign", "assign_from"])
             if k in ("set", "setattr", "setdefault"):
                 ops.append([k, t, h, key, gen_val(rng, key)])
             elif k in ("del", "pop"):
                 ops.append([k, t, h, key])
             elif k == "update":
                 ops.append([k, t, h, {kk: gen_val(rng, kk) for kk in rng.sample(KEYS, 2)}])
+            elif k == "assign_from":
+                # whole assignment whose right-hand side is the live document of another job / the project
+                if ntargets < 2:
+                    continue
+                ops.append([k, t, h, rng.choice([x for x in range(ntargets) if x != t])])
             elif k in ("reset", "whole_assign"):
                 d = gen_doc(rng)
                 r2 = rng.random()
@@ -402,12 +407,16 @@ class Run:
         if buffered:
             self.used_in_block.setdefault(t, set()).add(h)
             self.block_use(w, t, h, want_exc)
+            if k == "assign_from":
+                # the assignment reads the other document through its first handle
+                self.used_in_block.setdefault(op[3], set()).add(0)
+                self.block_use(w, op[3], 0, None)
         exc = None
         got = None
         try:
             # (a whole assignment goes through the property setter of the job / project: the document
             # object must not have been fetched by the harness first)
-            got = self.real_apply(None if k == "whole_assign" else w.doc(t, h), op, w, t, h)
+            got = self.real_apply(None if k in ("whole_assign", "assign_from") else w.doc(t, h), op, w, t, h)
         except Exception as e:  # noqa: BLE001
             exc = e
         self.expect(w, op, exc, want_exc)
@@ -421,6 +430,8 @@ class Run:
         if buffered and self.blk is not None:
             import copy
             self.blk["view"][(t, h)] = copy.deepcopy(new_model)
+            if k == "assign_from":
+                self.blk["view"][(op[3], 0)] = copy.deepcopy(self.model[op[3]])
         # the writing handle always sees its own writes
         try:
             seen = w.doc(t, h)()
@@ -531,6 +542,8 @@ class Run:
             m.update(norm(op[3]))
         elif k in ("reset", "whole_assign"):
             m = norm(op[3])
+        elif k == "assign_from":
+            m = copy.deepcopy(self.model[op[3]])
         elif k == "clear":
             m = {}
         elif k == "nested_set":
@@ -580,6 +593,8 @@ class Run:
             doc.reset(op[3])
         elif k == "whole_assign":
             w.handles[t][h].doc = op[3]
+        elif k == "assign_from":
+            w.handles[t][h].doc = w.handles[op[3]][0].doc
         elif k == "clear":
             doc.clear()
         elif k == "nested_set":
